@@ -162,6 +162,7 @@ func loadPkgCache(lpkg *listedPackage, pkg *types.Package, files []*ast.File, in
 	if err != nil {
 		return pkgCache{}, err
 	}
+	verifhook.Event("pkgcache.get.begin", "for", lpkg.ImportPath, "key", verifhook.Hex(lpkg.GarbleActionID[:8]))
 	filename, _, err := fsCache.GetFile(pkgCacheKey(lpkg))
 	verifhook.Event("pkgcache.get", "for", lpkg.ImportPath, "key", verifhook.Hex(lpkg.GarbleActionID[:8]), "hit", err == nil)
 	// Already in the cache; load it directly.
@@ -174,6 +175,7 @@ func loadPkgCache(lpkg *listedPackage, pkg *types.Package, files []*ast.File, in
 		if _, err := loaded.UnmarshalMsg(data); err != nil {
 			return pkgCache{}, fmt.Errorf("msgp decode: %w", err)
 		}
+		verifhook.Event("pkgcache.loaded", "for", lpkg.ImportPath, "key", verifhook.Hex(lpkg.GarbleActionID[:8]), "digest", verifhook.BytesDigest(data))
 		return loaded, nil
 	}
 	return computePkgCache(fsCache, lpkg, pkg, files, info, ssaPkg)
@@ -276,6 +278,7 @@ func computePkgCache(fsCache *cache.Cache, lpkg *listedPackage, pkg *types.Packa
 	if err := fsCache.PutBytes(pkgCacheKey(lpkg), data); err != nil {
 		return pkgCache{}, err
 	}
+	verifhook.Event("pkgcache.put.end", "for", lpkg.ImportPath, "key", verifhook.Hex(lpkg.GarbleActionID[:8]), "digest", verifhook.BytesDigest(data))
 	return computed, nil
 }
 
